@@ -28,7 +28,9 @@ class Loop:
     ghosts: dict[str, Ghost] = field(default_factory=dict)
     index: str | None = None  # name under which the hidden index of a `for` loop is visible to the invariant
     transition: dict[str, str] = field(default_factory=dict)  # proved at every latch over old.<var> (head state) and the current state; NOT assumed
-    hints: list[str] = field(default_factory=list)  # ground lemma instances assumed at the loop head (each is itself proved as an obligation)
+    hints: list[str] = field(default_factory=list)  # `LEMMA: instance` assumed at loop entry, head and latch (the lemma is proved in the same run)
+    cut: list[str] = field(default_factory=list)  # transition clauses that, once stated as obligations, are assumed for the preservation obligations (cut rule)
+    latch_hints: list[str] = field(default_factory=list)  # the same, assumed at the latch only (may mention the loop variable)
 
 
 @dataclass
@@ -80,10 +82,11 @@ class Lemma:
     hyps: list[str]
     goal: str
     notes: str = ""
+    trusted: bool = False  # an AXIOM about a library operation (validated at run time), instantiated by hints, never proved
 
 
-def lemma(name, props, vars, hyps, goal, notes=""):
-    LEMMAS[name] = Lemma(name, props, vars, hyps, goal, notes)
+def lemma(name, props, vars, hyps, goal, notes="", trusted=False):
+    LEMMAS[name] = Lemma(name, props, vars, hyps, goal, notes, trusted)
     return LEMMAS[name]
 
 
